@@ -20,9 +20,27 @@ TYPE_BYTES = {"socks5": {"Domain": 3, "V4": 1, "V6": 4}, "vmess": {"Domain": 2, 
 MAXV = {"u8": 255, "u16": 65535, "u32": 2**32 - 1}
 
 
+def e6_stream_opened_for_this_target(ctx):
+    """E6: where an address is sent once per stream (the VMess request header) and datagrams then travel without one, `the server decodes the identical
+    address` for a datagram means: the stream it is written into was opened for that datagram's target. The only thing that ties the two together
+    is the client's binding key (C02 U2 re-evaluated): it contains the target, and contains it as an identity."""
+    from ..engine import Ctx
+    from . import c02
+    sub = Ctx(ctx.prog, "C02", ctx.tier)
+    c02.run(sub)
+    n = 0
+    for o in sub.obs:
+        if o.rule == "U2" and "binding-key" in o.key:
+            n += 1
+            parts = o.key.split("|")
+            ctx.ob("E6", parts[1], parts[2], o.where, o.ok, o.detail)
+    ctx.floor("E6", "binding-key obligations (U2)", 3, n)
+
+
 def run(ctx):
     prog = ctx.prog
     bodies = [b for b in prog.prod_bodies() if "::_" not in b.defp]
+    e6_stream_opened_for_this_target(ctx)
     e1(ctx, prog, bodies)
     e2_e3(ctx, prog, bodies)
     # ---------------- E4 --------------------------------------------------------------------------
